@@ -331,8 +331,13 @@ def ob_overlaps(ctx, res):
         while parent_for is not None and parent_for.k != "for":
             parent_for = parent_for.parent
         ifs = [n for n in walk_no_nested_fn(parent_for["body"]) if n.k == "if"] if parent_for is not None else []
+        exits = [x for x in walk_no_nested_fn(parent_for["body"]) if x.k in ("break", "return", "continue")] if parent_for is not None else []
+        if exits:
+            res.fail("overlaps/early-exit", exits[0], "the scan over a node's children stops early (`%s`): children are ordered by START only, so a later child can still reach "
+                     "back into the query (a bigBed block holding a long entry) and would be missed" % up(exits[0]))
+            return
         if len(ifs) != 1 or up(strip(ifs[0]["cond"])) != nm or not list(calls(ifs[0]["then"], method="push")) or ifs[0].get("else") is not None:
-            res.fail("overlaps/use", c, "child must be pushed iff overlaps(..) holds")
+            res.fail("overlaps/use", c, "every child must be tested and pushed iff overlaps(..) holds (no other branch)")
             return
     res.ok(no, "both call sites pass (query, child span) positionally and push the child iff overlaps")
     rows = 0
